@@ -9,6 +9,7 @@ EXPLANATION = ("C12 (narrow): req0_pipe_close drains the pipe's contexts and eit
                "timer; the retry queue and the retained clone are used only when ctx->retry > 0. Liveness under faults and the "
                "timing of resends are not decided."
                " Also: a policy field that exists in both the socket and the context record is read from the socket only by initialisers and option functions (R4).")
+EXPLANATION += ' Round 3: the retry timer is started only with a context on the retry queue (R6).'
 
 
 def rule_r1(ctx):
